@@ -27,3 +27,11 @@ reg("C02", "exploration",
     "For every text of the C01 campaign that is accepted, the digest of the returned value tree (attribute sets, converted values/defaults/None, multikey and multisection order, wildcard mappings, section datatype applied once, type and lower-cased name) is compared with the tree built by the reference loader with reference conversions; an aliasing probe mutates every returned list/dict and reloads.",
     "Trusted: zcv/refload.py tree construction and zcv/refdt.py conversions. Acceptance differences are C01's business.",
     "random generation + reference value-tree model (differential oracle) + mutate-and-reload aliasing probe")
+reg("C16", "exploration",
+    "For accepted texts of the C01 family with handler attributes on random subsets of items at all depths: length, call order, delivered values (digest-equal to the reference and identical to objects of the returned tree) are compared with the reference loader's handler entry list; incomplete maps and case-variant duplicates must raise ConfigurationError with zero calls; None entries are skipped.",
+    "Trusted: zcv/refload.py entry order (post-order over closed sections, items in schema order, schema handler last). Handler names that are not basic-keys (U14) are not generated.",
+    "random generation + reference handler-entry model; four handler-map variants per accepted text")
+reg("C08", "exploration",
+    "Single-fault injection: texts the reference accepts get exactly one deviation of the kinds the statement lists at a random position/depth (both spellings of empty sections), are split into up to 3 included resources (same/sub/parent directory) and loaded three ways (in-memory resources with URLs, real files through the real openResource, a bare file object without URL); the raised error must carry the line and URL the reference attributes the fault to; conversion errors also the offending text and original ValueError.",
+    "Trusted: line attribution of zcv/refload.py (single pass in reading order). No line is promised for top-level missing items, section-datatype failures, missing/cyclic include targets and bad %import.",
+    "random single-fault injection at every kind/position + reference culprit-line model (differential oracle)")
